@@ -3,6 +3,7 @@
 use crate::runner::{entry, Entry};
 
 pub mod c07;
+pub mod c08;
 pub mod c09;
 pub mod c17;
 
@@ -16,6 +17,21 @@ pub fn registry() -> Vec<Entry> {
             "files of one statement per line (generated main+functions+data programs, every statement form) with 0-3 malformed/unsupported lines of 14 kinds inserted at random positions, LF/CRLF, with/without final newline, optionally cut into an included file. Or-A: every line with content is covered by a node or a parse error located on it; Or-B: nodes and errors of all other lines equal those of the file with the malformed lines deleted. Non-trivial = a malformed line with >= 3 good lines after it, or CRLF, or no final newline; distinct = different file contents.",
             &["line numbers are recomputed here from raw offsets", ".include lines are consumed by the parser and count as covered"],
         ),
+        {
+            let mut e = entry::<c08::C08>(
+                "C08",
+                8,
+                40_000,
+                3_000_000,
+                "decode table: every mnemonic the reference machine knows x every operand form the manual assigns a meaning to x boundary registers {zero, ra, sp, t0, a0, t6} x boundary immediates, enumerated exhaustively: each statement is parsed, the node(s) built are compared field by field (base forms) and executed by the reference machine next to the official meaning on 6 register files (result register, next instruction, memory effect), and the node's read/write sets are compared with the architectural ones. Folding: 18 operators x a 40-value boundary grid squared (exhaustive) through MathOp::operate, 27 mnemonics x 12x12 sub-grid through the value analysis, plus random 32-bit pairs; both in the overflow-checked and the release profile. Every case is non-trivial; distinct = different statement / operand pair.",
+                &[
+                    "reference machine (unit-tested against hand-computed vectors and i128 arithmetic)",
+                    "not checked (no meaning in the manual or not RV32): sgez, b, RARS `sw rs, imm, tmp`, register-first csrw/csrs/csrc, `jalr rd, imm`, lwu, all *w instructions, uret, fence",
+                ],
+            );
+            e.release_too = true;
+            e
+        },
         entry::<c09::C09>(
             "C09",
             500,
